@@ -24,6 +24,7 @@ COMMON = ['valid', 'drop', 'valid@.5T', 'valid@T-e', 'valid@T+e', 'valid@1.5T', 
 UDP_ONLY = ['icmp', 'senderr-netunreach', 'senderr-hostunreach']
 TCP_ONLY = ['fin', 'rst', 'valid+fin']
 CONNECT = ['ok', 'refused', 'unreachable', 'hang']
+UDP_CONNECT = ['ok', 'netunreach']
 
 
 def alphabet(transport: str):
@@ -105,6 +106,17 @@ class ScriptPeer:
             o = self.conn_letters[0]
         self.connects.append((self.kern.now, o))
         return o, D0
+
+    def on_udp_connect(self):
+        """Outcome of connecting a datagram socket: forced by a history, chosen by the explorer when UDP connect letters
+        were given, 'ok' otherwise."""
+        if getattr(self, 'forced_udp_conn', None):
+            return self.forced_udp_conn.pop(0)
+        letters = getattr(self, 'udp_conn_letters', None)
+        if self.ctx is not None and letters and len(letters) > 1:
+            self.n_udp_conn = getattr(self, 'n_udp_conn', 0) + 1
+            return self.ctx.choose(f'udpconnect{self.n_udp_conn}', letters)
+        return 'ok'
 
     def on_send(self, sock, data):
         k = len(self.sent)
